@@ -42,7 +42,7 @@ class NoReturn(Exception):
 
 def bounds(tier):
     return {"shapes": SH_T if tier == "thorough" else SH_Q, "accel": ACC, "calib": CAL, "tol": [0.1, 0.01],
-            "seeds": [0, 1] if tier == "quick" else [0, 1, 2, 3], "crop_corner": [True, False],
+            "seeds": ([0, 1] if tier == "quick" else [0, 1, 2, 3]) + ["None (16 configurations)"], "crop_corner": [True, False],
             "history depth": 3 if tier == "quick" else 4, "generation horizon": HORIZON}
 
 
@@ -69,6 +69,13 @@ def gen_cases(tier, seed):
     for dt in ("float32", "float64", "complex64", "bool", "int32"):
         for sh in ([16, 16], [32, 20]):
             cases.append(dict(kind="mask", shape=sh, accel=3, calib=[4, 4], tol=0.1, seed=0, crop=True, dtype=dt))
+    # seed=None (documented: no seeding): the mask is not reproducible, but every other clause holds, in particular the
+    # global NumPy random state stays untouched
+    for sh in ([16, 16], [32, 20]):
+        for acc in (2, 4):
+            for cal in ([0, 0], [4, 4]):
+                for crop in (True, False):
+                    cases.append(dict(kind="mask", shape=sh, accel=acc, calib=cal, tol=0.1, seed=None, crop=crop, dtype="complex128"))
     cfgs = [dict(shape=[16, 16], accel=2, calib=[4, 4], tol=0.1, seed=0, crop=True),
             dict(shape=[20, 16], accel=4, calib=[0, 0], tol=0.1, seed=3, crop=False),
             dict(shape=[32, 32], accel=6, calib=[8, 6], tol=0.1, seed=1, crop=True)]
@@ -201,6 +208,9 @@ def run_case(case, seed):
             V("dtype", "mask dtype %s, requested %s" % (mask.dtype, dt))
         ok = check_mask(cfg, mask, viol, V)
         nontrivial = ok and 0 < np.count_nonzero(mask) < mask.size
+        if cfg["seed"] is None:
+            return dict(states=1, transitions=1, nontrivial=bool(nontrivial),
+                        outcome="mask (unseeded)" if not viol else "violation:" + viol[0]["oracle"], viol=viol)
         # reproducibility: same arguments and seed, different global RNG state
         np.random.seed(12345)
         mask2 = call_poisson(cfg, dt)
@@ -219,6 +229,8 @@ def run_case(case, seed):
                       "(%d positions differ)" % int(np.sum(np.asarray(mask) != np.asarray(mask3))))
             except (ValueError, NoReturn):
                 V("reproducible", "same arguments and seed raised after an intervening call with another seed")
+    if cfg["seed"] is None:
+        gens = 0     # (unseeded: the number of generations differs from run to run)
     return dict(states=2, transitions=gens + 1, nontrivial=bool(nontrivial),
                 outcome=outcome if not viol else "violation:" + viol[0]["oracle"], viol=viol)
 
